@@ -90,12 +90,19 @@ Definition failing {Sc Ob : Type} (admits spec : Sc -> Ob -> bool) (cs : list (n
   filter (fun r => negb (snd (fst r) && snd r))
          (map (fun c => let '(i, s, ob) := c in (i, admits s ob, spec s ob)) cs).
 (* the same with the predicate also evaluated on the model's own observation: a predicate that
-   is false of the model's observation is a defect of the predicate, not of the code *)
-Definition failing4 {Sc Ob : Type} (admits spec : Sc -> Ob -> bool) (mobs : Sc -> Ob)
+   is false of the model's observation is a defect of the predicate, not of the code.  The
+   model's observation is computed once per case. *)
+Definition failing4 {Sc Ob M : Type} (mobs : Sc -> M) (admits : Sc -> M -> Ob -> bool)
+           (toobs : M -> Ob) (spec : Sc -> Ob -> bool)
            (cs : list (nat * Sc * Ob)) : list (nat * bool * bool * bool) :=
   filter (fun r => negb (snd (fst (fst r)) && snd (fst r) && snd r))
-         (map (fun c => let '(i, s, ob) := c in (i, admits s ob, spec s ob, spec s (mobs s))) cs).
-Definition engine_mobs (sc : escen) : eobs := eobs_of_model (model_obs sc).
+         (map (fun c => let '(i, s, ob) := c in
+                        let m := mobs s in
+                        (i, admits s m ob, spec s ob, spec s (toobs m))) cs).
+Definition engine_admits_with (sc : escen) (m : list (option (list event * outcome))) (ob : eobs) : bool :=
+  scen_ok sc && runs_admitted m ob.
+Definition engine_failing (spec : escen -> eobs -> bool) (cs : list (nat * escen * eobs)) :=
+  failing4 model_obs engine_admits_with eobs_of_model spec cs.
 (* negative controls: corrupted observations that must NOT be admitted *)
 Definition accepted {Sc Ob : Type} (admits : Sc -> Ob -> bool) (cs : list (nat * Sc * Ob))
   : list nat :=
